@@ -182,13 +182,14 @@ def check(prop: str, tier: str, seed: int, replay: str | None) -> int:
     replay_paths = []
     if unknown:
         rc = 1
-        os.makedirs(os.path.join(HERE, 'replays', prop), exist_ok=True)
+        rdir = os.path.join(HERE, 'replays', prop) if not os.environ.get('VERIF_NO_EVIDENCE') else os.path.join('/tmp', 'vreplays', prop)
+        os.makedirs(rdir, exist_ok=True)
         by_key: dict = {}
         for v in unknown:
             by_key.setdefault(v.get('key'), []).append(v)
         for i, (key, vs) in enumerate(sorted(by_key.items(), key=lambda kv: str(kv[0]))):
             v = vs[0]
-            path = os.path.join(HERE, 'replays', prop, f'{prop}_{seed}_{tier}_{i}.json')
+            path = os.path.join(rdir, f'{prop}_{seed}_{tier}_{i}.json')
             with open(path, 'w') as f:
                 json.dump(dict(property=prop, seed=seed, tier=tier,
                                case=v.get('case'), key=key, what=v.get('what'),
@@ -234,7 +235,7 @@ def check(prop: str, tier: str, seed: int, replay: str | None) -> int:
     ev = dict(property_id=prop, tier=tier, seed=int(seed), level='exploration',
               coverage=coverage, assumptions=assumptions,
               wall_s=round(wall, 2), violations=len(unknown))
-    if replay_case is None:
+    if replay_case is None and not os.environ.get('VERIF_NO_EVIDENCE'):
         os.makedirs(os.path.join(HERE, 'evidence'), exist_ok=True)
         with open(os.path.join(HERE, 'evidence', f'{prop}.json'), 'w') as f:
             json.dump(ev, f, indent=1, default=str)
